@@ -152,7 +152,9 @@ fn judge_at(c: &Pair, x: &Vec<u8>, t: &Vec<u8>, st: &mut Stats) -> Verdict {
     let a3 = std::str::from_utf8(x).ok().map_or(false, |sx| {
         matches!(imp::v1_str(sx), Ok(Ok(_))) || matches!(imp::v1_fromstr_header(sx), Ok(Ok(_))) || matches!(imp::v1_fromstr_addr(sx), Ok(Ok(_)))
     });
-    if !a1 && !a2 && !a3 {
+    // ... and so is the auto-detecting entry point (it may be lenient where the dedicated parsers are not)
+    let a4 = matches!(imp::auto(x), Ok(HeaderResult::V1(Ok(_))) | Ok(HeaderResult::V2(Ok(_))));
+    if !a1 && !a2 && !a3 && !a4 {
         // a candidate the reference calls valid but the parser rejects is C01/C02's to report
         if matches!(v1_ref(x), V1Ref::Accept { .. }) || matches!(v2_ref(x), V2Ref::Accept { .. }) {
             st.discard();
